@@ -97,6 +97,9 @@ type SimWriteCloser struct {
 	FailAt int
 	// FailClose: Close returns ErrInjectedClose (after releasing the resource).
 	FailClose bool
+	// Transient: only the write that crosses FailAt fails (short count + error); the stream
+	// accepts every later write (a quota freed, an interrupted call).
+	Transient bool
 	// Err, when set, is returned by the failing Write / Close instead of ErrInjectedWrite /
 	// ErrInjectedClose (an errno as a real file, pipe or socket reports it).
 	Err             error
@@ -119,7 +122,7 @@ func (w *SimWriteCloser) Write(p []byte) (int, error) {
 		w.WriteAfterClose++
 		return 0, errors.New("write on closed file")
 	}
-	if w.FailAt >= 0 {
+	if w.FailAt >= 0 && !(w.Transient && w.Fired) {
 		room := w.FailAt - len(w.Buf)
 		if room < len(p) {
 			if room < 0 {
